@@ -114,7 +114,7 @@ func c02BlocktimeValueBlind(r *core.Report) {
 				if reassignedBetween(g, info, nd, e, vo) {
 					continue
 				}
-				if leadsToErrorOnly(g, f, e) {
+				if onlyErrorsReachable(g, f, e) {
 					bad = core.ExprStr(e.Ast.(ast.Expr))
 					if !e.Truth {
 						bad = "!(" + bad + ")"
